@@ -8,25 +8,25 @@ registered = subprocess.run(["bin/bblint", "-list"], capture_output=True, text=T
 
 # id -> (level category, level text, level note, technique, design_ref)
 T = {
- "C01": ("other", "Structural necessary conditions of agreement decided on every path / call site: quorum comparisons use >= SuperMajority against the peer set of the right round, fame set once by supermajority in normal rounds only, round-received rule, consensus sort key free of local state. Agreement itself (a theorem about all DAGs and schedules) is NOT decided.", "go/types+go/ssa+VTA faithful; rule tables transcribe docs/consensus.rst; anchors by qualified name", "must-pass-through path analysis + operator discipline + field read-sets over go/ssa", "DESIGN.md §4 C01"),
- "C02": ("other", "Decides on every path: single block producer, index = LastBlockIndex()+1 with SetBlock before the callback, ascending once-only processing of pending rounds with break at first undecided and deferred Clean, writers of BlockBody fields, and that the block is stored again after the application answered. Not decided: values across schedules.", "as C01", "CFG dominance / post-dominance, call-graph who-may-reach, field-writer enumeration", "DESIGN.md §4 C02"),
+ "C01": ("other", "Structural necessary conditions of agreement decided on every path / call site: quorum comparisons use >= SuperMajority against the peer set of the right round, fame set once by supermajority in normal rounds only, round-received rule, consensus sort key free of local state. Agreement itself (a theorem about all DAGs and schedules) is NOT decided. Also: a round is queued once (never after it was decided), FamousWitnesses is exactly Witness && Famous==True, DivideRounds records exactly what round()/witness()/lamportTimestamp() computed.", "go/types+go/ssa+VTA faithful; rule tables transcribe docs/consensus.rst; anchors by qualified name", "must-pass-through path analysis + operator discipline + field read-sets over go/ssa", "DESIGN.md §4 C01"),
+ "C02": ("other", "Decides on every path: single block producer, index = LastBlockIndex()+1 with SetBlock before the callback, ascending once-only processing of pending rounds with break at first undecided and deferred Clean, writers of BlockBody fields, and that the block is stored again after the application answered. Not decided: values across schedules. Also: no re-queue of processed rounds, no read-back of lossy round records, block fields tied to the frame (round, peers, hash, timestamp), ProcessSigPool never touches a block above LastBlockIndex (F-C11-2).", "as C01", "CFG dominance / post-dominance, call-graph who-may-reach, field-writer enumeration", "DESIGN.md §4 C02"),
  "C03": ("other", "Decides that the consensus functions (closure under module calls) read no process-local state (topological indexes, counters, clocks, randomness, view-dependent store getters), that no map-iteration / arrival order reaches an ordered output without a content-keyed sort, that memo caches are keyed by all parameters, and that frame/round encoders are canonical. Independence from batching / cache size is NOT decided.", "as C01; E3 closure bounded to module code", "read/write-set closure over the VTA call graph, order-taint dataflow", "DESIGN.md §4 C03"),
  "C04": ("other", "Decides: Lamport timestamp = max(parents)+1 on all success paths, frame sort compares Lamport timestamps first with <, block payload is an in-order concatenation over frame.Events, events enter ReceivedEvents once and leave the undetermined queue iff received.", "as C01", "symbolic max-plus evaluation of SSA + path analysis + provenance dataflow", "DESIGN.md §4 C04"),
- "C05": ("other", "Decides: pools trimmed by counts captured before insertion and only after successful insertion; only addTransactions/addInternalTransaction/addSelfEvent write the pools; InmemProxy copies before queueing; every pool/hashgraph mutator call site reachable from a concurrent root holds Node.coreLock. End-to-end exactly-once is NOT decided.", "as C01; lock rule is intraprocedural lock-state + caller closure", "SSA value identity + dominance, field-writer enumeration, lock-context analysis", "DESIGN.md §4 C05"),
+ "C05": ("other", "Decides: pools trimmed by counts captured before insertion and only after successful insertion; only addTransactions/addInternalTransaction/addSelfEvent write the pools; InmemProxy copies before queueing; every pool/hashgraph mutator call site reachable from a concurrent root holds Node.coreLock. End-to-end exactly-once is NOT decided. Also: head/seq move only after a successful insertion (and always then), every transaction received on the submit channel reaches the pool.", "as C01; lock rule is intraprocedural lock-state + caller closure", "SSA value identity + dominance, field-writer enumeration, lock-context analysis", "DESIGN.md §4 C05"),
  "C07": ("other", "Decides on every CFG path of InsertEvent and its checks that SetEvent / the undetermined queue are reached only after signature, self-parent, other-parent and index checks; shapes of those checks; wire resolution with checked lookups; who may reach InsertEvent / InsertFrameEvent. Not decided: ECDSA soundness.", "go/types+go/ssa+VTA faithful; one/two-level helper inlining", "path-sensitive must-pass-through analysis over go/ssa with helper summaries; call-graph gates", "DESIGN.md §4 C07"),
  "C08": ("other", "Decides absence of a fixed catalogue of crash shapes on all functions reachable from the network entry points: unchecked fallible producers (SetString, elliptic.Unmarshal, hex decode), nil reaching ecdsa.Verify, wire integers used as slice bounds, constant slicing of decoder inputs, unvalidated nil-able positions of fast-forward responses, dispatch defaults. General panic-freedom is NOT decided.", "as C01; catalogue is finite and listed in evidence", "taint/dataflow over go/ssa restricted by VTA reachability; dominance of validation", "DESIGN.md §4 C08"),
  "C09": ("other", "Decides on every path: SetSignature in ProcessSigPool only after block fetched, peer set of the block's round fetched, signer membership and Block.Verify true; wire signatures attributed to the event creator only; anchor raised only under strict > TrustCount and monotone index; signBlock only after the app answered.", "as C01", "path-sensitive must-pass-through analysis; field-writer enumeration; type structure", "DESIGN.md §4 C09"),
- "C10": ("other", "Decides: who may reach Store.SetPeerSet; effective round = round-received + 6; only accepted receipts change the set, by the matching operation, exhaustively over TransactionType; PeerSetCache never overwrites and looks up greatest round <= r; membership tests in _witness / ProcessSigPool; core.validators always takes the latest recorded set.", "as C01", "call-graph gates, symbolic affine evaluation, path analysis, exhaustiveness over go/types constants", "DESIGN.md §4 C10"),
- "C11": ("other", "Decides: event record + topological key + participant key set on one badger transaction with a single post-dominating Commit; SetEvent precedes use; Bootstrap replays through the normal insert path in maintenance mode in key order; every transition to Babbling is preceded by head restoration; mobile store is a sibling copy. Durability under power loss and arbitrary kill instants are NOT decided.", "as C01; badger Txn atomic at Commit", "typestate on the txn value, dominance, AST sibling comparison", "DESIGN.md §4 C11"),
+ "C10": ("other", "Decides: who may reach Store.SetPeerSet; effective round = round-received + 6; only accepted receipts change the set, by the matching operation, exhaustively over TransactionType; PeerSetCache never overwrites and looks up greatest round <= r; membership tests in _witness / ProcessSigPool; core.validators always takes the latest recorded set. Also: every accepted receipt of a handled type IS applied (no node-local skip) and leads to SetPeerSet; round 0 is the genesis set; one canonical key spelling.", "as C01", "call-graph gates, symbolic affine evaluation, path analysis, exhaustiveness over go/types constants", "DESIGN.md §4 C10"),
+ "C11": ("other", "Decides: event record + topological key + participant key set on one badger transaction with a single post-dominating Commit; SetEvent precedes use; Bootstrap replays through the normal insert path in maintenance mode in key order; every transition to Babbling is preceded by head restoration; mobile store is a sibling copy. Durability under power loss and arbitrary kill instants are NOT decided. Also: setHeadAndSeq restores exactly the last stored own event; the replay loop ends only on a short batch; batches never overlap; the database is kept when bootstrapping; signatures ahead of their block wait (F-C11-2).", "as C01; badger Txn atomic at Commit", "typestate on the txn value, dominance, AST sibling comparison", "DESIGN.md §4 C11"),
  "C12": ("other", "Decides on every path of core.fastForward / CheckBlock / Node.fastForward: Reset and validator update only after CheckBlock==nil and frame-hash equality; CheckBlock returns nil only with peer-set hash equality and count > TrustCount; the counter counts distinct canonical signers that are members and verify; the application is restored only after the core accepted.", "as C01", "path-sensitive must-pass-through analysis with helper summaries", "DESIGN.md §4 C12"),
- "C13": ("other", "Structural clauses only: frames are computed from consensus state (no local view, constant root depth, sorted outputs, canonical encoding), Reset seeds caches from every frame event before storing the block, validators after reset are the latest recorded set. That a reset node delivers the same later blocks is NOT decided.", "as C01", "read-set closure, order taint, path analysis", "DESIGN.md §4 C13"),
+ "C13": ("other", "Structural clauses only: frames are computed from consensus state (no local view, constant root depth, sorted outputs, canonical encoding), Reset seeds caches from every frame event before storing the block, validators after reset are the latest recorded set. That a reset node delivers the same later blocks is NOT decided. Also: a computed frame is stored before it is handed out, the anchor block is paired with the frame of its round and the snapshot of its index, babbling only after Restore succeeded, wire coordinates of new events come from the store.", "as C01", "read-set closure, order taint, path analysis", "DESIGN.md §4 C13"),
  "C14": ("other", "Decides the provenance of the peer set against which fast-forward signatures are counted: it must derive from state the node already trusted, not exclusively from the response. Reported as known finding F-C14-1 on the pinned tree (protocol-level).", "as C01", "interprocedural data-dependence (one level) over go/ssa", "DESIGN.md §4 C14"),
- "C15": ("other", "Decides agreement of writer/reader field tables: every exported EventBody field is rebuilt by ReadWireInfo from the wire field ToWire fills; MarshalDB/UnmarshalDB copy the same private fields; cache fields are unexported and written only by their lazy getters; no json tags hide fields of transported types; canonical frame encoding. Value-level round trips (nil vs empty) NOT decided.", "as C01; encoding/json and ugorji summaries", "field-coverage analysis over go/types + go/ssa stores", "DESIGN.md §4 C15"),
- "C16": ("other", "Decides read-through (cache miss falls back to the db getter), write-through (db writer called and its error returned when not in maintenance mode), key-function pairing between dbSet*/dbGet*, zero-padded key formats, codec pairing, sibling equality of the mobile store. Durability / eviction behaviour as a value-level map NOT decided.", "as C01", "path analysis + data-dependence + format-string inspection + AST sibling comparison", "DESIGN.md §4 C16"),
- "C17": ("other", "Decides exhaustively (6 states x 4 commands + default) that handlers run only when Babbling, sync additionally when Suspended, refusals answer with an error; the sync handler's call-graph closure contains no hashgraph/core mutator; eventDiff is sorted and truncated to a prefix; submissions only touch the pool; suspension condition and its placement after every tick.", "as C01; VTA reach incl. library callbacks", "finite path enumeration over processRPC, call-graph reach vs mutator set, operator discipline", "DESIGN.md §4 C17"),
+ "C15": ("other", "Decides agreement of writer/reader field tables: every exported EventBody field is rebuilt by ReadWireInfo from the wire field ToWire fills; MarshalDB/UnmarshalDB copy the same private fields; cache fields are unexported and written only by their lazy getters; no json tags hide fields of transported types; canonical frame encoding. Value-level round trips (nil vs empty) NOT decided. Also: nil-preserving wire conversions of block signatures; wire coordinates derived from the store (never from unexported fields JSON drops).", "as C01; encoding/json and ugorji summaries", "field-coverage analysis over go/types + go/ssa stores", "DESIGN.md §4 C15"),
+ "C16": ("other", "Decides read-through (cache miss falls back to the db getter), write-through (db writer called and its error returned when not in maintenance mode), key-function pairing between dbSet*/dbGet*, zero-padded key formats, codec pairing, sibling equality of the mobile store. Durability / eviction behaviour as a value-level map NOT decided. Also: read-through getters pass their own arguments to cache and database, database listings start at skip+1 and return at most count, rolling-index positions proved equal to arg - lastIndex + len(items) as linear forms.", "as C01", "path analysis + data-dependence + format-string inspection + AST sibling comparison", "DESIGN.md §4 C16"),
+ "C17": ("other", "Decides exhaustively (6 states x 4 commands + default) that handlers run only when Babbling, sync additionally when Suspended, refusals answer with an error; the sync handler's call-graph closure contains no hashgraph/core mutator; eventDiff is sorted and truncated to a prefix; submissions only touch the pool; suspension condition and its placement after every tick. Also: removedRound is the effective round, suspension baseline taken after bootstrap, eventDiff ends with the error of a failing store read, the transport always carries a refusal back, maintenance mode only suspends.", "as C01; VTA reach incl. library callbacks", "finite path enumeration over processRPC, call-graph reach vs mutator set, operator discipline", "DESIGN.md §4 C17"),
  "C18": ("other", "Decides: block timestamp <- frame timestamp <- Median of timestamps of the famous witnesses of the same round; Median sorts a copy ascending and returns the middle rank(s) for every length (index forms proved by parity analysis). The Byzantine-tolerance inequality itself needs facts about rounds and is NOT decided.", "as C01; no overflow", "provenance dataflow + quasi-affine abstract interpretation (period 2)", "DESIGN.md §4 C18"),
  "C19": ("proof", "Static proof for ALL n >= 1 by abstract interpretation of the SSA of SuperMajority/TrustCount in the domain of eventually periodic quasi-affine functions: SuperMajority(n) = floor(2n/3)+1, TrustCount(n) >= floor(n/3) with T(1)=0, T(n)>=1 for n>=2; derived quorum inequalities per residue class; every use site compares with the right strictness; memo fields written only by their getters.", "go/ssa faithful; no integer overflow; n < 2^53 on the float path; len(Peers)==Len() for duplicate-free sets", "abstract interpretation (quasi-affine, period 3) of go/ssa + operator discipline at all use sites", "DESIGN.md §4 C19"),
- "C20": ("other", "Decides: retry wrappers return nil only if the last attempt succeeded; proxy methods return call's error unchanged; arguments and replies are passed through without rebuilding; SubmitTx ack=false becomes an error; every field of every type crossing the JSON-RPC boundary is exported and untagged; InmemProxy copies on submit. Ordering per connection and behaviour under drops NOT decided.", "as C01; net/rpc+jsonrpc summaries", "path analysis of the retry loops + data-dependence identity + field tables from go/types", "DESIGN.md §4 C20"),
+ "C20": ("other", "Decides: retry wrappers return nil only if the last attempt succeeded; proxy methods return call's error unchanged; arguments and replies are passed through without rebuilding; SubmitTx ack=false becomes an error; every field of every type crossing the JSON-RPC boundary is exported and untagged; InmemProxy copies on submit. Ordering per connection and behaviour under drops NOT decided. Also: every method of the application-side RPC server returns the handler error.", "as C01; net/rpc+jsonrpc summaries", "path analysis of the retry loops + data-dependence identity + field tables from go/types", "DESIGN.md §4 C20"),
 }
 
 NA = {
